@@ -173,9 +173,38 @@ func (d *recDebugger) VisitStepOutState(node *parser.ASTNode, vs parser.Scope, t
 	return d.ECALDebugger.VisitStepOutState(node, vs, tid, soErr)
 }
 
-func (d *recDebugger) RecordThreadFinished(tid uint64) {
+// The `f` (execution finished) events of a trace are NOT taken from the code's own
+// RecordThreadFinished calls: the harness inserts them by specification — after the entry file and
+// after every console line of a command line session (c15CLISession), after every execution of a
+// sink body (c15WrapSinks).
+func (d *recDebugger) executionFinished(tid uint64) {
 	d.note(tid, "f")
-	d.ECALDebugger.RecordThreadFinished(tid)
+}
+
+// c15SinkBodyRuntime marks the end of every execution of a sink body, however it ends.
+type c15SinkBodyRuntime struct {
+	parser.Runtime
+	rec *recDebugger
+}
+
+func (r *c15SinkBodyRuntime) Eval(vs parser.Scope, is map[string]interface{}, tid uint64) (interface{}, error) {
+	defer r.rec.executionFinished(tid)
+	return r.Runtime.Eval(vs, is, tid)
+}
+
+func c15WrapSinks(n *parser.ASTNode, rec *recDebugger) {
+	if n.Name == parser.NodeSINK {
+		for _, c := range n.Children {
+			if c.Name == parser.NodeSTATEMENTS {
+				if _, done := c.Runtime.(*c15SinkBodyRuntime); !done {
+					c.Runtime = &c15SinkBodyRuntime{c.Runtime, rec}
+				}
+			}
+		}
+	}
+	for _, c := range n.Children {
+		c15WrapSinks(c, rec)
+	}
 }
 
 func (d *recDebugger) tids() []uint64 {
@@ -432,7 +461,9 @@ const c15Source = "t"
 
 // positions are numbers: <source index>*1000 + line; sources: 0 = "t", 1 = "lib", 2 = "main",
 // 3 = the entry file of the command line interpreter (set per case), 4 = its console input
-var c15Sources = []string{c15Source, "lib", "main", "entry.ecal", "console input"}
+// (the library of the life-cycle cases is called "t2", their main program "t": break point keys of one
+// source are a PREFIX of the other's)
+var c15Sources = []string{c15Source, "t2", "main", "entry.ecal", "console input"}
 
 func c15SrcOffset(name string) int {
 	for i, s := range c15Sources {
@@ -534,6 +565,7 @@ func c15Debugged(c *c15Run, kill bool) (threads []*c15Thread, lg *memLog, rec *r
 			return []*c15Thread{t}, lg, rec, false
 		}
 		c15WrapLiterals(ast, rec)
+		c15WrapSinks(ast, rec)
 	}
 	for i := 0; i < c.n; i++ {
 		vs := gvs
@@ -559,7 +591,7 @@ func c15Debugged(c *c15Run, kill bool) (threads []*c15Thread, lg *memLog, rec *r
 					func() { erp.Debugger = nil; rec.setOn(false) },
 					func(a *parser.ASTNode) { c15WrapLiterals(a, rec) })
 			} else if ci != nil {
-				t.res = c15CLISession(ci, c.cliLines, t.tid)
+				t.res = c15CLISession(ci, c.cliLines, t.tid, rec)
 			} else if c.workers > 0 {
 				// addEvent starts the processor (rules can only be added while it is stopped)
 				t.res, t.err = ast.Runtime.Eval(t.vs, make(map[string]interface{}), t.tid)
@@ -854,9 +886,9 @@ func c15Life(mode string, erp *interpreter.ECALRuntimeProvider, lib, main string
 		case "d":
 			detach()
 		case "l":
-			libAst = load("lib", lib)
+			libAst = load(c15Sources[1], lib)
 		case "m":
-			mainAst = load("main", main)
+			mainAst = load(c15Sources[0], main)
 		case "1":
 			eval(libAst)
 		case "2", "3":
@@ -1014,16 +1046,23 @@ func c15NewCLI(src string, lg util.Logger) *tool.CLIInterpreter {
 
 // c15CLISession: load the entry file, then feed the console lines (what `ecal run`/console does
 // per line: parse as "console input", validate, evaluate, report the thread as finished).
-func c15CLISession(ci *tool.CLIInterpreter, lines []string, tid uint64) string {
+func c15CLISession(ci *tool.CLIInterpreter, lines []string, tid uint64, rec *recDebugger) string {
 	defer os.RemoveAll(*ci.Dir)
+	finished := func() {
+		if rec != nil {
+			rec.executionFinished(tid)
+		}
+	}
 	var out []string
 	if err := ci.LoadInitialFile(tid); err != nil {
 		out = append(out, "load: "+err.Error())
 	}
+	finished()
 	for _, l := range lines {
 		term := &c15Term{}
 		ci.HandleInput(term, l, tid)
 		out = append(out, term.sb.String())
+		finished()
 	}
 	ci.RuntimeProvider.Processor.Finish()
 	return strings.Join(out, "|")
@@ -1034,7 +1073,7 @@ func c15CLIPlain(src string, lines []string) (string, []string, []string) {
 	lg := &memLog{}
 	ci := c15NewCLI(src, lg)
 	defer ci.RuntimeProvider.Cron.Stop()
-	res := c15CLISession(ci, lines, ci.RuntimeProvider.NewThreadID())
+	res := c15CLISession(ci, lines, ci.RuntimeProvider.NewThreadID(), nil)
 	out := c15Outcome(res, nil, ci.GlobalVS)
 	logs := append([]string(nil), lg.lines...)
 	ci2 := c15NewCLI(src, &memLog{})
@@ -1044,7 +1083,7 @@ func c15CLIPlain(src string, lines []string) (string, []string, []string) {
 	rec := newRecDebugger(dbg)
 	ci2.RuntimeProvider.Debugger = rec
 	tid := ci2.RuntimeProvider.NewThreadID()
-	c15CLISession(ci2, lines, tid)
+	c15CLISession(ci2, lines, tid, rec)
 	return out, logs, rec.trace(tid)
 }
 
@@ -1106,6 +1145,9 @@ func c15SinkRun(src string, workers int, rec *recDebugger) (string, []string) {
 	}
 	if err != nil {
 		return c15Outcome(nil, err, vs), nil
+	}
+	if rec != nil {
+		c15WrapSinks(ast, rec)
 	}
 	res, err := ast.Runtime.Eval(vs, make(map[string]interface{}), erp.NewThreadID())
 	erp.Processor.Finish()
@@ -1703,7 +1745,19 @@ func init() {
 			if len(args) == 2 && args[0] == "extract" {
 				return c15Extract(args[1])
 			}
-			fmt.Fprintln(os.Stderr, "usage: harness C15 -tool extract <out.lean|->")
+			if len(args) == 1 && args[0] == "pin" {
+				fmt.Println("package main\n\n// GENERATED ONCE by `harness C15 -tool pin` on a tree on which the check passed, then committed:\n// literal visit traces of the directed programs (the expectation of a directed case must not be\n// recomputed from the tree under test).\nvar c15Pinned = map[string]string{")
+				for _, d := range c15Directed {
+					if _, done := c15Pinned[d[0]]; done && false {
+						continue
+					}
+					_, _, trace := c15Plain(d[0])
+					fmt.Printf("\t%q: %q,\n", d[0], c15TraceStr(trace))
+				}
+				fmt.Println("}")
+				return 0
+			}
+			fmt.Fprintln(os.Stderr, "usage: harness C15 -tool extract <out.lean|-> | pin")
 			return 2
 		},
 		Setup: func() {
@@ -1772,7 +1826,13 @@ func init() {
 				g.Emit(fmt.Sprintf("K %s %s %s %s", kn, c15BpOps(r, nLines, visited), c15TraceStr(trace), hx(src)))
 			}
 			for _, d := range c15Directed {
+				// the expectation of a directed case must not come from the tree under test: its visit
+				// trace is the literal in c15pinned.go (`harness C15 -tool pin` printed it once)
 				_, _, trace := c15Plain(d[0])
+				if lit, ok := c15Pinned[d[0]]; ok {
+					trace = strings.Split(lit, ",")
+					g.Count("D.directed.pinned")
+				}
 				for _, timing := range []string{"poll", "window"} {
 					g.Count("D.directed")
 					g.Emit(fmt.Sprintf("D 1 00 %s %s %s 1 %s %s", d[1], d[2], timing, c15TraceStr(trace), hx(d[0])))
@@ -1781,6 +1841,19 @@ func init() {
 			// the command line interpreter (cli/tool/interpret.go): entry file, then console lines on the
 			// same thread; each line is its own parse unit "console input" and ends with
 			// RecordThreadFinished
+			{
+				entry := "func f(a) {\n    return a + 1\n}\nlibv := 1"
+				console := []string{"raise(\"x\")", "a := 1", "b := 1 / 0", "c := f(a)", "return c"}
+				_, _, trace := c15CLIPlain(entry, console)
+				var hexes []string
+				for _, l := range console {
+					hexes = append(hexes, hx(l))
+				}
+				for _, sc := range []string{"-", "I,R,O,U"} {
+					g.Count("I")
+					g.Emit(fmt.Sprintf("I 00 s4001 %s %s %s %s", sc, c15TraceStr(trace), hx(entry), strings.Join(hexes, ",")))
+				}
+			}
 			nCli := 12
 			if g.Thorough() {
 				nCli = 150
@@ -1803,6 +1876,10 @@ func init() {
 				}
 				if len(console) > 6 {
 					console = console[:6]
+				}
+				if i%2 == 0 {
+					// lines that end with an error
+					console = append([]string{[]string{"raise(\"E9\")", "q9 := 1 / 0", "q8 := nope9.x"}[i%3]}, console...)
 				}
 				_, _, trace := c15CLIPlain(lib, console)
 				if len(trace) > 1200 {
@@ -1844,6 +1921,11 @@ func init() {
 				{"x := event.state.n", "log(\"s\", x)"},
 				{"x := h(event.state.n)", "y := x + 1", "log(\"s\", y)"},
 				{"x := event.state.n", "if x > 2 {", "    x := h(x)", "}", "log(\"s\", x)"},
+				// bodies that do not end normally
+				{"return event.state.n"},
+				{"x := event.state.n", "raise(\"E\", \"m\", x)"},
+				{"log(\"s\", 1 / 0)"},
+				{"x := h(event.state.n)", "return x"},
 			}
 			// a step command pending when an execution ends must not hide the break point from the
 			// worker's next execution (one worker: deterministic)
@@ -1932,8 +2014,12 @@ func init() {
 								ops = append(ops, "d"+strconv.Itoa(l))
 							}
 						}
+						if r.Intn(5) == 0 && len(vis) > 0 {
+							// remove every break point of ONE source, then set one in the other source again
+							ops = append(ops, []string{"r0", "r1000"}[r.Intn(2)], "s"+strconv.Itoa(vis[r.Intn(len(vis))]))
+						}
 						if len(ops) == 0 {
-							ops = []string{"s2001"}
+							ops = []string{"s1"}
 						}
 						bo = strings.Join(ops, ",")
 						sc = c15Script(r, 1, false)
@@ -1946,11 +2032,14 @@ func init() {
 					g.Emit(fmt.Sprintf("L %s 0%s %s %s %s %s %s", mode, boe, bo, sc, c15TraceStr(trace), hx(lib), hx(main)))
 				}
 			}
-			emitL("func f(a) {\n    b := a + 1\n    return b * 2\n}\nlibv := 5", "x := f(1)\ny := f(x) + libv\n[x, y]", NewRand(5), "s1002,s2002", "R,R,R,R,R,R")
-			emitL("func f(a) {\n    b := a + 1\n    return b * 2\n}\nlibv := 5", "x := f(1)\ny := f(x) + libv\n[x, y]", NewRand(6), "s1003,s1005,s2001", "I,O,U,R,I,I,O,R")
+			emitL("func f(a) {\n    b := a + 1\n    return b * 2\n}\nlibv := 5", "x := f(1)\ny := f(x) + libv\n[x, y]", NewRand(5), "s1002,s2", "R,R,R,R,R,R")
+			emitL("func f(a) {\n    b := a + 1\n    return b * 2\n}\nlibv := 5", "x := f(1)\ny := f(x) + libv\n[x, y]", NewRand(6), "s1003,s1005,s1", "I,O,U,R,I,I,O,R")
 			attLib := "\nfunc att(a) {\n    b := a + 1\n    x.attach()\n    c := b + 1\n    return c\n}\nfunc att2(a) {\n    d := att(a)\n    return d + 1\n}"
-			emitL("libv := 5"+attLib, "q := att(1)\nr := att2(q)\n[q, r]", NewRand(7), "s1005,s2002", "R,R,R,R")
-			emitL("libv := 5"+attLib, "q := att2(1)\nr := att(q)\n[q, r]", NewRand(8), "s1005,s1006,s2002", "I,U,O,R,R,R")
+			// `rmbreak t` must leave the break points of source `t2` alone (and the other way round)
+			emitL("func f(a) {\n    b := a + 1\n    return b * 2\n}\nlibv := 5", "x := f(1)\ny := f(x) + libv\n[x, y]", NewRand(9), "s1002,s2,s3,r0", "R,R,R,R,R,R")
+			emitL("func f(a) {\n    b := a + 1\n    return b * 2\n}\nlibv := 5", "x := f(1)\ny := f(x) + libv\n[x, y]", NewRand(10), "s1002,s1003,s2,r1000", "R,R,R,R,R,R")
+			emitL("libv := 5"+attLib, "q := att(1)\nr := att2(q)\n[q, r]", NewRand(7), "s1005,s2", "R,R,R,R")
+			emitL("libv := 5"+attLib, "q := att2(1)\nr := att(q)\n[q, r]", NewRand(8), "s1005,s1006,s2", "I,U,O,R,R,R")
 			nLife := 40
 			if g.Thorough() {
 				nLife = 600
